@@ -38,6 +38,8 @@ def patch_tokens(name, mi):
         "byte": ["d:2"],
         "quad": ["d:8"],
         "selfloop": ["L:.Lx", "o", "jcc:.Lx"],
+        "func_body": ["o", "jcc:.Lz", "o", "L:.Lz", "ret"],
+        "func_simple": ["o", "ret"],
     }
     if name.startswith("jmp:"):
         return ["o", "jmp:" + name[4:]]
@@ -325,6 +327,20 @@ class Listing:
                         if x.t == "cfi":
                             x.cls = "unit%d" % n
                     start = None
+
+    def append_function(self, section, name, items):
+        """A function inserted by the rewrite: its own run of items at the end of the section, labelled by its symbol."""
+        seq = self.sections[section]
+        blk = "new:" + name
+        self.block_func[blk] = blk
+        self.block_code[blk] = True
+        self.block_section[blk] = section
+        seq.append(Item("label", sym=name, end=False, blk=blk, patch=None, temp=False))
+        for it in items:
+            if it.t == "atom":
+                it.blk = blk
+                it.func = blk
+            seq.append(it)
 
     # ---- read-offs ----------------------------------------------------------------
     def rope(self, section):
